@@ -280,6 +280,11 @@ class Interp:
             if self.ctx.branch(ok_cond):
                 return
             raise RaiseSig(exc, implicit=True)
+        if exc == "AssertionError" and self.V.c.ghost.get("asserts_raise") and len(self.frames) == 1:
+            # the contract declares the function's own assertions as a specified exceptional exit (raises: AssertionError)
+            if self.ctx.branch(ok_cond):
+                return
+            raise RaiseSig(exc, implicit=True)
         if any(any(exc_isa(exc, h) for h in hs) for hs in self.frame.handlers):
             if self.ctx.branch(ok_cond):
                 return
@@ -856,6 +861,10 @@ class Interp:
             return self.V.user_cmp(self, "contains", c, item, node)
         if isinstance(c, Obj) and self.V.has_method(c.cls, "__contains__"):
             return self.call_method(c, "__contains__", [item], {}, node)
+        if c is Ellipsis or c is None or isinstance(c, (bool, int, float)):
+            # CPython: TypeError: argument of type '...' is not iterable
+            self.implicit("TypeError", False, f"container-supports-in({type(c).__name__})", None)
+            raise PathEnd()
         raise Unsupported(f"`in` on {c!r}")
 
     # ---- subscripts / attributes
